@@ -70,3 +70,11 @@ add("C17", "Hypothesis-driven program generation with marker/decoy decoration, m
     "trailing / leading position) plus decoys and stray marker comments elsewhere; the analysis of the marked rendering must equal "
     "the analysis of the equally long neutral rendering minus exactly the marked functions.",
     "relation only (never compares with an absolute expectation); eligible = not nested in and not enclosing a function")
+
+add("C04", "metamorphic testing: Hypothesis insertion plans over token-safe boundaries of generated programs and a vendored real-world corpus, exhaustive single edits",
+    "For generated canonical programs and 96 vendored real-world files in 7 languages, plans of 1..30 simultaneous blank / whitespace / "
+    "comment-only lines (every comment style, any indentation), trailing comments and trailing blanks are applied at token-safe places "
+    "decided on the lexer's own token spans; the analysis must return the same functions with equal lengths and columns and line numbers "
+    "shifted by exactly the lines inserted above. Thorough tries every safe boundary x every style of every corpus file, and strips all trivia "
+    "from generated programs. One open known finding (Pygments C/C++ function rule) is withheld by construction and pinned by replays.",
+    "token-safety relies on Pygments' tokenisation of the base text; comment edits inside C/C++ declaration headers are excluded (known finding)")
